@@ -57,6 +57,24 @@ def origin_of(body, defs, op, depth=0):
     return rv["k"]
 
 
+_INT_BITS = {"u8": 8, "u16": 16, "u32": 32, "u64": 64, "u128": 128, "usize": 32, "i8": 7, "i16": 15, "i32": 31, "i64": 63, "i128": 127, "isize": 31}
+
+
+def _widening_try_from(origin):
+    """origin `std::convert::TryFrom::try_from<Dst,Src>` with every Src value representable in Dst (usize counted as 32 bits as a
+    destination; as a source it is not widening into anything but u64/u128/i128... which is not assumed)"""
+    m = _re.match(r"^std::convert::(?:TryFrom::try_from|TryInto::try_into)<(\w+),(\w+)>$", origin or "")
+    if not m:
+        return False
+    dst, src = m.group(1), m.group(2)
+    if dst not in _INT_BITS or src not in _INT_BITS or src in ("usize", "isize"):
+        return False
+    signed_src, signed_dst = src.startswith("i"), dst.startswith("i")
+    if signed_src and not signed_dst:
+        return False
+    return _INT_BITS[dst] >= _INT_BITS[src]
+
+
 def _class_path(path):
     """unwrap() and expect("reason") are the same may-panic site: one audited class"""
     for ty in ("std::option::Option::<T>", "std::result::Result::<T, E>"):
@@ -108,6 +126,8 @@ def sites(fb, body):
                     continue
             if f["name"] == "drain" and len(t["args"]) == 2 and ((t["args"][1].get("place") or {}).get("ty") or t["args"][1].get("ty") or "").endswith("RangeFull"):
                 continue        # drain(..) over the full range has no bound to violate
+            if f["name"] in ("unwrap", "expect") and t["args"] and _widening_try_from(origin_of(body, defs, t["args"][0])):
+                continue        # u8/u16/u32 -> usize (u64, ...): the conversion cannot fail on a target with >= 32 bit pointers
             if ext and (ext.get("doc_panics") or path in SUPPLEMENT) or path in SUPPLEMENT:
                 org = origin_of(body, defs, t["args"][0]) if t["args"] else ""
                 recv = st or ",".join(f.get("args", []))
